@@ -170,7 +170,7 @@ PROPS = {
         "rule": "every truncation offset (messages up to 70 bytes: all offsets; longer: ~40 sampled; thorough: all) of generated valid messages over coherent specs, "
                 "the owner of each offset computed from the lengths of the separately packed elements, elements before the owner compared with their decoded values; "
                 "plus the message histories of C01 for typing of Pack/Unpack failures; non-trivial = distinct truncation or failing case",
-        "trusted_base": MODEL_TB,
+        "trusted_base": MODEL_TB + ["translator: Gen/ErrorTypes.v is produced by a syntactic go/ast reading of the return statements of the error-wrapping glue (message.go, field/composite.go) - trusted, cross-checked by the oracle's errors.As / RawMessage / FieldIDs observations"],
         "assumptions": ["coherent specs (None.Fixed excluded: it is not prefix-intolerant)"],
     },
     "C05": {
